@@ -108,6 +108,9 @@ func (ex *Exec) rangeOf(t *Term) rng {
 	if r, ok := ex.rngCache[t.ID]; ok {
 		return r
 	}
+	if _, ok := ex.decDigits[t.ID]; ok {
+		return rng{uOK: true, ulo: '0', uhi: '9', sOK: true, slo: '0', shi: '9'}
+	}
 	w := t.S.W
 	var r rng
 	switch t.Op {
